@@ -246,3 +246,5 @@ func statusLine(code int) string {
 func bg() context.Context { return context.Background() }
 
 func hasPrefixFold(s, p string) bool { return len(s) >= len(p) && strings.EqualFold(s[:len(p)], p) }
+
+func asConnect(err error, target **connect.Error) bool { return errors.As(err, target) }
